@@ -19,6 +19,8 @@ def run(ctx):
     D.rule_segtype_subject(res, "C06-R4", m)
     D.rule_accept_guard(res, "C06-R1", m)
     D.rule_modular_successor(res, "C06-R1", m)
+    D.rule_segment_plumbing(res, "C06-R1", m)
+    D.rule_segment_ends_walk(res, "C06-R2", m)
     D.rule_reject_pure(res, "C06-R2", m)
     D.rule_first_restart(res, "C06-R3", m)
     D.rule_keyed_access(res, "C06-R5", m)
